@@ -43,6 +43,71 @@ def recToJ : Recovered → J
   | .halt "not-lldp" => J.arr [J.str "ignored"]
   | .halt _ => J.arr [J.str "halt"]
 
+def modOfJ (j : J) : Except String PortMod := do
+  match (← j.asArr) with
+  | [d, p, b] => pure ⟨← d.asNat, ← p.asNat, ← b.asBool⟩
+  | _ => .error "mod = [dpid,port,flood]"
+
+def modsOfJ (j : J) (k : String) : Except String (List PortMod) := do (← j.array k).mapM modOfJ
+
+def entOfJ (j : J) : Except String (Nat × Nat × Nat) := do
+  match (← j.asNats) with
+  | [a, b, c] => pure (a, b, c)
+  | _ => .error "tree entry = [switch,neighbour,port]"
+
+/-- the choice of tree handed to the handlers: the implementation's, whatever the adjacency looks like — except that a self-link
+    makes `_calc_spanning_tree` raise before it chooses anything -/
+def flagSet (j : J) (k : String) : Bool := match j.get? k with | some (J.bool true) => true | _ => false
+
+def chooseImpl (t : List TEdge) : Choose := fun a => if hasSelfLink a then .error "AssertionError" else .ok t
+
+/-- is the specification's verdict asked for: an op that changed the adjacency (raised LinkEvents), no self-link in it -/
+def verdictAfter (adjAfter : List Link) (t : List TEdge) (o : Out) : String :=
+  if o.events.isEmpty || hasSelfLink adjAfter then "ok" else Spec.verdict adjAfter t
+
+/-- a history with the implementation's port_mods next to every op: `bits` are the NO_FLOOD bits those port_mods leave on the
+    switches (a ConnectionUp starts a connection on which nothing has been received); after every op the tree they amount to
+    (`Spec.floodTree` on the adjacency after the op, which does not depend on any tree) is judged by `Spec.verdict` and handed to
+    `stepOf` as the choice of tree -/
+def runOpsImpl (v : Variant) : DState → Prev → List (Op × List PortMod) → DState × List (Out × String)
+  | s, _, [] => (s, [])
+  | s, b, (op, im) :: r =>
+    let b0 := match op with | .up d _ => b.clear d | _ => b
+    let b1 := Spec.applyBits b0 im
+    let adjAfter := keys (step v s op).1.adj
+    let t := Spec.floodTree adjAfter b1
+    let res := stepOf v s (chooseImpl t) op
+    let rs := runOpsImpl v res.1 b1 r
+    (rs.1, (res.2, verdictAfter adjAfter t res.2) :: rs.2)
+
+def runTImpl (v : Variant) : TState → Prev → List (TOp × List PortMod) → TState × List (Out × String)
+  | ts, _, [] => (ts, [])
+  | ts, b, (op, im) :: r =>
+    let b0 := match op with | .up d _ => b.clear d | _ => b
+    let b1 := Spec.applyBits b0 im
+    let adjAfter := keys (tstep v ts op).1.d.adj
+    let t := Spec.floodTree adjAfter b1
+    let res := tstepOf v ts (chooseImpl t) op
+    let rs := runTImpl v res.1 b1 r
+    (rs.1, (res.2, verdictAfter adjAfter t res.2) :: rs.2)
+
+def outVToJ (ov : Out × String) : J :=
+  J.mk [("events", J.arr (ov.1.events.map fun (a, l) => J.arr [J.bool a, linkToJ l])),
+        ("mods", J.arr (ov.1.mods.map modToJ)), ("errs", J.ofNat ov.1.errs), ("tree", J.str ov.2)]
+
+def isBidirEnd (adj : List Link) (sw p : Nat) : Bool :=
+  adj.any fun l => decide (l.flip ∈ adj) && ((l.dpid1 = sw && l.port1 = p) || (l.dpid2 = sw && l.port2 = p))
+
+/-- an `_update_tree()` cut short by a failing send, with nothing after it that would show which tree it was pushing: what can be
+    said of the port_mods that did go out whatever the tree — they go through the connected switches and their ports in order,
+    each is a change against `_prev`, and a port that is not an end of a bidirectional link is told what `is_edge_port` says -/
+def failedPrefixOK (all : Bool) (adj : List Link) (conns : Conns) (pv : Prev) (mods : List PortMod) : Bool :=
+  let targets := conns.flatMap fun c => (c.2.filter fun p => decide (p < OFPP_MAX)).map fun p => (c.1, p)
+  let ks := mods.map fun m => (m.sw, m.port)
+  (if all then ks.isSublist targets else ks.all fun k => targets.contains k) &&
+  mods.all fun m => decide (pv.get (m.sw, m.port) ≠ some m.flood) &&
+    (isBidirEnd adj m.sw m.port || m.flood == isEdgePort adj m.sw m.port)
+
 def handle1 (j : J) : Except String J := do
   let op ← j.string "op"
   if op = "calc" then
@@ -50,8 +115,17 @@ def handle1 (j : J) : Except String J := do
     let order ← j.nats "order"
     match calcTreeL adj order with
     | .error e => pure (J.mk [("exc", J.str e)])
-    | .ok t => pure (J.mk [("tree", J.arr (t.map fun e => J.ofNats [e.v, e.pv, e.w, e.pw])),
-                           ("keys", J.ofNats (treeKeys t))])
+    | .ok t =>
+      match j.get? "tree" with
+      | some tj =>
+        -- the implementation's tree (the returned dict as entries [switch, neighbour, port]): is it one the specification allows
+        let ents ← (← tj.asArr).mapM entOfJ
+        let v := match Spec.pairUp ents with
+          | .error e => e
+          | .ok ti => Spec.verdict adj ti
+        pure (J.mk [("valid", J.str v), ("model", J.str (Spec.verdict adj t))])
+      | none => pure (J.mk [("tree", J.arr (t.map fun e => J.ofNats [e.v, e.pv, e.w, e.pw])),
+                            ("keys", J.ofNats (treeKeys t))])
   else if op = "update" then
     let adj ← (← j.array "adj").mapM linkOfJ
     let order ← j.nats "order"
@@ -63,6 +137,30 @@ def handle1 (j : J) : Except String J := do
     let fail ← j.optNat "fail"
     let all ← j.boolean "all"
     let prevJ := fun (pv : Prev) => J.arr (pv.map fun ((d, p), b) => J.arr [J.ofNat d, J.ofNat p, J.bool b])
+    if let some ij := j.get? "impl" then
+      -- the implementation's port_mods: the tree they amount to is judged by the specification and handed to `updateTreeOf`
+      let mods ← modsOfJ ij "mods"
+      let again := flagSet j "again"
+      let mods2 ← if again then modsOfJ ij "mods2" else pure []
+      let b1 := Spec.applyBits prev mods
+      let t := Spec.floodTree adj (Spec.applyBits b1 mods2)
+      let tr : Except String (List TEdge) := match calcTreeL adj order with
+        | .error e => .error e            -- a self-link: `_calc_spanning_tree` raises before it chooses
+        | .ok _ => .ok t
+      let ans := fun (v : String) (pv : Prev) (ms : List PortMod) (second : Option (Prev × List PortMod)) =>
+        J.mk ([("tree", J.str v), ("mods", J.arr (ms.map modToJ)), ("prev", prevJ pv)] ++
+              (match second with | some (pv2, ms2) => [("mods2", J.arr (ms2.map modToJ)), ("prev2", prevJ pv2)] | none => []))
+      match updateTreeFOf all adj tr conns prev fail with
+      | .error e => return (J.mk [("exc", J.str e)])
+      | .ok (pv, ms) =>
+        if again then
+          match updateTreeOf all adj tr conns pv with
+          | .error e => return (J.mk [("exc", J.str e)])
+          | .ok r2 => return (ans (Spec.verdict adj t) pv ms (some r2))
+        else if fail == some mods.length && !(ms == mods && Spec.verdict adj t == "ok") && failedPrefixOK all adj conns prev mods then
+          -- cut short by the failing send, nothing after it: the tree is not observable
+          return (ans "ok" [] mods none)
+        else return (ans (Spec.verdict adj t) pv ms none)
     match updateTreeF all adj order conns prev fail with
     | .error e => pure (J.mk [("exc", J.str e)])
     | .ok (pv, mods) =>
@@ -77,7 +175,14 @@ def handle1 (j : J) : Except String J := do
   else if op = "history" then
     let vj ← j.get "variant"
     let v : Variant := ⟨← vj.boolean "popFirst", ← vj.boolean "skip", ← vj.boolean "visitAll"⟩
-    let ops ← (← j.array "ops").mapM opOfJ
+    let opsJ ← j.array "ops"
+    let ops ← opsJ.mapM opOfJ
+    if flagSet j "impl" then
+      let ims ← opsJ.mapM fun o => modsOfJ o "mods"
+      let (s, outs) := runOpsImpl v Discovery.init [] (ops.zip ims)
+      return (J.mk [("outs", J.arr (outs.map outVToJ)),
+                  ("adjacency", J.arr (s.adj.map fun (l, t) => J.arr [linkToJ l, J.ofNat (t - Discovery.init.now)])),
+                  ("prev", J.arr (s.prev.map fun ((d, p), b) => J.arr [J.ofNat d, J.ofNat p, J.bool b]))])
     let (s, outs) := runOps v Discovery.init ops
     pure (J.mk [("outs", J.arr (outs.map outToJ)),
                 ("adjacency", J.arr (s.adj.map fun (l, t) => J.arr [linkToJ l, J.ofNat (t - Discovery.init.now)])),
@@ -86,7 +191,14 @@ def handle1 (j : J) : Except String J := do
     -- a timer-driven history: the expiry sweeps are not ops, they fire while time passes (`wait`)
     let vj ← j.get "variant"
     let v : Variant := ⟨← vj.boolean "popFirst", ← vj.boolean "skip", ← vj.boolean "visitAll"⟩
-    let ops ← (← j.array "ops").mapM topOfJ
+    let opsJ ← j.array "ops"
+    let ops ← opsJ.mapM topOfJ
+    if flagSet j "impl" then
+      let ims ← opsJ.mapM fun o => modsOfJ o "mods"
+      let (ts, outs) := runTImpl v Discovery.tinit [] (ops.zip ims)
+      return (J.mk [("outs", J.arr (outs.map outVToJ)),
+                  ("adjacency", J.arr (ts.d.adj.map fun (l, t) => J.arr [linkToJ l, J.ofNat (t - Discovery.init.now)])),
+                  ("timer", match ts.next with | some n => J.ofNat (n - Discovery.init.now) | none => J.str "stopped")])
     let (ts, outs) := runT v Discovery.tinit ops
     pure (J.mk [("outs", J.arr (outs.map outToJ)),
                 ("adjacency", J.arr (ts.d.adj.map fun (l, t) => J.arr [linkToJ l, J.ofNat (t - Discovery.init.now)])),
